@@ -323,9 +323,12 @@ def run_C10(ctx):
     for lines in props.statement_programs(rng, 150 if quick else 3000, faulty=0.2):
         lines = lines[:6]
         for pos in range(len(lines) + 1):
-            for fault in ("#", "1 +", ")", "x = ", "[1, 2; 3]", "5 as", "delete 3", "f(a+1) = 2", "1e²"):
+            # one lexical fault and, for every statement form, a syntax fault in and right after it
+            for fault in ("#", "1 +", ")", "x = ", "[1, 2; 3]", "5 as", "delete 3", "f(a+1) = 2", "1e²",
+                          "clear 5", "clear x = 2", "delete x 5", "delete f(a) 5", "x = 1 5", "f(a) = a 5", "1 5", "x = 7 y = 8",
+                          "(1", "[1, 2", "|1", "f(1,", "5 m m", "delete", "= 3", "f(a) = ", "x = = 1"):
                 faulty = lines[:pos] + [fault] + lines[pos:]
-                if n % (7 if quick else 1) == 0:
+                if n % (11 if quick else 1) == 0 or (pos == 1 and n % 3 == 0):
                     cases.append(gen.hist_case("f%d" % n, ["x = 41\nf(a) = a\n", "\n".join(faulty) + "\n", "x\nf\n"]))
                 n += 1
     do_stream(ctx, "fault-injection", cases, P, monitors={"failed_stmt_mutated"}, oracle=oracles.oracle_malformed_text_runs_nothing)
